@@ -1,9 +1,11 @@
 package main
 
 import (
+	"bytes"
 	"encoding/hex"
 	"errors"
 	"fmt"
+	"sort"
 	"strings"
 	"sync"
 
@@ -88,10 +90,11 @@ type poolSeq struct {
 	confirmed []*nom.AccountBlock // the confirmed chain of the address
 	history   []db.DB             // stable database after each confirmed block (history[i] holds confirmed[:i])
 	lock      sync.Mutex
+	seen      map[types.HashHeight]bool // every block identifier the sequence ever offered to the pool or confirmed
 }
 
 func newPoolSeq(c *Ctx) *poolSeq {
-	s := &poolSeq{c: c, stable: &poolStable{dbs: map[types.Address]db.DB{}}}
+	s := &poolSeq{c: c, stable: &poolStable{dbs: map[types.Address]db.DB{}}, seen: map[types.HashHeight]bool{}}
 	s.addr = idxAddress(7, 1)
 	s.pool = chain.NewAccountPool(s.stable)
 	s.history = []db.DB{db.NewMemDB()}
@@ -149,6 +152,28 @@ func (s *poolSeq) observe(op string) (string, []*nom.AccountBlock) {
 		}
 		prev = b.Identifier()
 	}
+	// monitor: the pool holds (answers GetPatch for) exactly the blocks of its uncommitted chain - a block that lost its
+	// place to a competitor, was rolled back, is confirmed, or was refused is not "in the pool" (sync and gossip skip a
+	// delivered block for which GetPatch answers)
+	pooled := map[types.HashHeight]bool{}
+	for _, b := range unc {
+		if b != nil {
+			pooled[b.Identifier()] = true
+		}
+	}
+	for _, id := range sortedIds(s.seen) {
+		var p db.Patch
+		if pn := safely(func() { p = s.pool.GetPatch(s.addr, id) }); pn != "" {
+			s.c.Fail("pool after %s: GetPatch(%d:%s) panics", op, id.Height, s8(id.Hash))
+			break
+		}
+		if (p != nil) != pooled[id] {
+			f := strings.SplitN(strings.TrimSpace(out), " ", 2)
+			s.c.Fail("pool after %s: GetPatch(%d:%s) answers %v but the block is %s the account's uncommitted chain [%s] (pool frontier %s, %d confirmed blocks): only the blocks of that chain are in the pool - a displaced, rolled back, refused or confirmed block is not", op, id.Height, s8(id.Hash),
+				map[bool]string{true: "a patch", false: "nil"}[p != nil], map[bool]string{true: "on", false: "not on"}[pooled[id]], f[len(f)-1], f[0], len(s.confirmed))
+			break
+		}
+	}
 	return out, unc
 }
 
@@ -162,6 +187,7 @@ func (s *poolSeq) add(b *nom.AccountBlock, force bool) {
 		}
 	}
 	tx := &nom.AccountBlockTransaction{Block: b, Changes: db.NewPatch()}
+	s.seen[b.Identifier()] = true
 	res := guard(func() string {
 		if force {
 			return poolErr(s.pool.ForceAddAccountBlockTransaction(&s.lock, tx))
@@ -205,6 +231,7 @@ func (s *poolSeq) insert(nb []*nom.AccountBlock) {
 		common.DealWithErr(err)
 		common.DealWithErr(db.SetFrontier(next, b.Identifier(), data))
 		s.confirmed = append(s.confirmed, b)
+		s.seen[b.Identifier()] = true
 		s.history = append(s.history, next)
 		cur = next
 		args = append(args, fmt.Sprint(b.Height), s8(b.Hash), s8(b.PreviousHash))
@@ -348,6 +375,21 @@ func init() {
 			}
 		}
 	})
+}
+
+// sortedIds: by height, then hash (deterministic reports)
+func sortedIds(m map[types.HashHeight]bool) []types.HashHeight {
+	out := make([]types.HashHeight, 0, len(m))
+	for id := range m {
+		out = append(out, id)
+	}
+	sort.Slice(out, func(i, j int) bool {
+		if out[i].Height != out[j].Height {
+			return out[i].Height < out[j].Height
+		}
+		return bytes.Compare(out[i].Hash[:], out[j].Hash[:]) < 0
+	})
+	return out
 }
 
 func minInt(a, b int) int {
